@@ -201,7 +201,7 @@ def main():
     ap.add_argument("--jobs", type=int, default=int(os.environ.get("VERIF_JOBS", "14")))
     a = ap.parse_args()
     pid = a.pid.upper()
-    tier = a.tier if a.tier in ("quick", "thorough") else "quick"
+    tier = a.tier if a.tier in ("quick", "thorough", "experimental") else "quick"
     seed = int(os.environ.get("VERIF_SEED", "0") or 0)
     t0 = time.time()
     try:
